@@ -45,7 +45,7 @@ ASSUMPTIONS = [
     'client flags avoid the server-reserved bit except in the class that targets it (F10-resvflag)',
 ]
 
-KEYNAMES = ['kh', 'km', 'kt'] + ['k%d' % i for i in range(1, 25)]
+KEYNAMES = ['kh', 'km', 'kt', 'kl'] + ['k%d' % i for i in range(1, 25)]
 VERBS = {'get', 'gets', 'set', 'add', 'replace', 'cas', 'append', 'prepend', 'incr', 'decr', 'delete', 'stats', 'version',
          'verbosity', 'flush_all', 'quit'}
 STORE = ('set', 'add', 'replace', 'cas', 'append', 'prepend')
@@ -98,19 +98,19 @@ def khash(key):
 # ----------------------------------------------------------------------------- the alphabet (from the specification)
 MC_TEMPLATE = '''SPECIFICATION MCSpec
 CONSTANTS
-  KeyNames = {{"kh", "km", "kt"}}
+  KeyNames = {{"kh", "km", "kt", "kl"}}
   Conns = {Conns}
   MaxReq = {MaxReq}
   FAsIs = {FAsIs}
   Mutants = {Mutants}
   MaxLen = {MaxLen}
   Alpha = "{Alpha}"
-  OomGate = {OomGate}
+  OomGates = {OomGates}
   PrintAlpha = {PrintAlpha}
 INVARIANTS {INVS}
 CHECK_DEADLOCK TRUE
 '''
-MC_DEFAULTS = dict(Conns='{"c1"}', MaxReq=1, FAsIs='{}', Mutants='{}', MaxLen=1, Alpha='full', OomGate='FALSE', PrintAlpha='FALSE',
+MC_DEFAULTS = dict(Conns='{"c1"}', MaxReq=1, FAsIs='{}', Mutants='{}', MaxLen=1, Alpha='full', OomGates='{FALSE}', PrintAlpha='FALSE',
                    INVS='C12_Tokens C12_Zero C12_NoDoubleFree C12_NoNegative C11_OneReply')
 
 
@@ -162,9 +162,9 @@ class Ctx:
     def rand_key(self, bucket, minlen=1, maxlen=40):
         rng = self.rng
         while True:
-            n = rng.choice([rng.randint(minlen, min(maxlen, 12)), rng.randint(minlen, maxlen), rng.randint(minlen, maxlen)])
-            if rng.random() < 0.04:
-                n = 250
+            n = rng.choice([rng.randint(minlen, max(minlen, min(maxlen, 12))), rng.randint(minlen, maxlen), rng.randint(minlen, maxlen)])
+            if rng.random() < 0.04 and minlen < 200:
+                n = rng.choice([250, 232, 233])
             k = bytes(rng.choice(KEYCH) for _ in range(n))
             if k[0] in b'@?' or k[0] <= 32:
                 continue
@@ -176,7 +176,9 @@ class Ctx:
         if kid in self.keys:
             return self.keys[kid]
         rng, cls, name = self.rng, kr['cls'], kr['name']
-        if cls == 'plain':
+        if cls == 'plain' and name.startswith('kl'):
+            k = self.rand_key(self.served, 233, 250)       # record of an empty value is still > 256 bytes
+        elif cls == 'plain':
             k = self.rand_key(self.served)
         elif cls == 'unserved':
             k = self.rand_key(rng.choice(self.unserved))
@@ -345,7 +347,7 @@ def concretise(cmd, ctx, last=False):
             else:
                 nbytes = badnum(nc)
         body = ctx.body(n, c['content'])
-        c['n'], c['flag'], c['vid'] = n, flag, ctx.vid(body)
+        c['n'], c['flag'], c['vid'], c['ccomp'] = n, flag, ctx.vid(body), bool(flag & 0x10)
         toks = [verb.encode(), keys[0], flags, exp, nbytes]
         if verb == 'cas':
             toks.append(b'xx' if nf == 'cas' else b'%d' % rng.randrange(0, 1 << 31))
@@ -441,7 +443,7 @@ CONFS = [dict(body_c=100, body_big=300, body_max=600), dict(body_c=64, body_big=
 
 
 def base_cmd(verb, **kw):
-    c = dict(verb=verb, keys=[], nf='none', nc='ok', size='na', n=0, content='plain', vid='', flag=0, rev=0, delta=0,
+    c = dict(verb=verb, keys=[], nf='none', nc='ok', size='na', n=0, content='plain', vid='', flag=0, ccomp=False, rev=0, delta=0,
              noreply=False, fault='none', cut='none', hl=0, tl=0, got=0)
     c.update(kw)
     return c
@@ -490,7 +492,7 @@ def hx(b):
 
 
 def make_scenario(sid, rng, script, mode='pipe', conf_over=None, probe=None, restart=False, others=None, stall=False,
-                  preload=True):
+                  preload=True, close_first=False):
     """script: list of abstract commands for connection c1.  mode: pipe | byte | trunc:<n> | tcp.
     others: {conn name: script} run concurrently with c1 (private keys).  restart: close/reopen the store after the
     preload, so that reads come from the data files."""
@@ -548,7 +550,7 @@ def make_scenario(sid, rng, script, mode='pipe', conf_over=None, probe=None, res
             # a client stalled inside a command keeps its request token (by design): with max_req = 1 the probe
             # would wait for it, so such a connection is ended first
             incomplete = script and (script[-1]['cut'] != 'none' or script[-1]['fault'] == 'bodyshort')
-            if mode == 'tcp' or incomplete:
+            if mode == 'tcp' or incomplete or close_first:
                 steps.append(dict(op='close', c='c1'))
             w2 = build('c2', probe)
             conns[-1]['probe'] = True
@@ -561,6 +563,7 @@ def make_scenario(sid, rng, script, mode='pipe', conf_over=None, probe=None, res
 def truncations(sid, rng_seed, script, every=1, **kw):
     """one scenario per cut position of the script's byte stream (the same concretisation for all cuts)"""
     out = []
+    kw = dict(kw, close_first=True)
     probe_sc = make_scenario(sid, random.Random(rng_seed), script, **kw)
     total = [c for c in probe_sc['conns'] if c['name'] == 'c1'][0]['total']
     for cut in range(1, total, every):
@@ -623,7 +626,7 @@ def roundtrip_scenario(sid, rng):
 
 
 # ----------------------------------------------------------------------------- normalisation (pure reformatting)
-CMD_FIELDS = ('verb', 'nf', 'nc', 'n', 'content', 'vid', 'flag', 'rev', 'delta', 'noreply', 'fault', 'hl', 'tl', 'got')
+CMD_FIELDS = ('verb', 'nf', 'nc', 'n', 'content', 'vid', 'flag', 'ccomp', 'rev', 'delta', 'noreply', 'fault', 'hl', 'tl', 'got')
 
 
 def norm_cmd(c):
@@ -638,7 +641,8 @@ def norm_reply(r, sc):
         for it in r['items']:
             kid = sc['keymap'].get(it['kx'], '?')
             cls = kid.split(':')[0]
-            x = dict(id=kid, vid='opaque', flag=int(it['flag']) if len(it['flag']) < 10 else -1, cas=bool(it['cas']),
+            fl = int(it['flag']) if len(it['flag']) < 12 else -1
+            x = dict(id=kid, vid='opaque', flag=fl if 0 <= fl < (1 << 31) else -1, cas=bool(it['cas']),
                      mver=0, mflag=0, mlen=0)
             if cls == 'plain':
                 txt = it.get('text')
@@ -746,4 +750,335 @@ def validate(events, rundir, timeout=3000):
     res['accepted'] = res['consumed'] == len(events) and r['rc'] == 0 and not r['error'] and 'parse_error' not in res
     if not res['accepted']:
         res['tlc_error'] = r['error'] or res.get('parse_error') or ('rc=%s' % r['rc'])
+    return res
+
+
+# ----------------------------------------------------------------------------- model checking
+ALLF = ['F2', 'F2-incr-get', 'F2-negrev', 'F2-unserved-del', 'F2-dupget', 'F10', 'F10-negbytes', 'F10-resvflag',
+        'F10-stale-recvtime', 'F10-emptylong', 'F13']
+EXPECT_ASIS = {'F2': ('C12_Zero',), 'F2-incr-get': ('C12_Zero',), 'F2-negrev': ('C12_Zero',),
+               'F2-unserved-del': ('C12_Zero', 'C12_NoNegative'), 'F2-dupget': ('C12_Zero',), 'F10': ('C11_OneReply',),
+               'F10-negbytes': ('C11_OneReply',), 'F10-resvflag': ('C11_OneReply', 'C12_Zero'),
+               'F10-stale-recvtime': ('C11_OneReply',), 'F10-emptylong': ('C11_OneReply', 'C12_Zero'), 'F13': ('C11_OneReply',)}
+ANYINV = ('C11_OneReply', 'C12_Zero', 'C12_NoNegative', 'C12_Tokens', 'C12_NoDoubleFree')
+
+
+def mc_plan(tier):
+    """(name, constants, expected) - expected None: every invariant must hold; a tuple: one of these must be violated"""
+    two = dict(Conns='{"c1", "c2"}', MaxReq=1, Alpha='tok', INVS='C12_Tokens C12_Zero C12_NoDoubleFree C12_NoNegative')
+    both = '{FALSE, TRUE}'
+    if tier == 'quick':
+        main = [('core-2', dict(MaxLen=2, Alpha='core', OomGates=both), None),
+                ('2conn-1', dict(two, MaxLen=1), None)]
+        self_ = [('asis-all', dict(MaxLen=1, Alpha='full', FAsIs=tla_set(ALLF)), ANYINV)]
+    else:
+        main = [('full-2', dict(MaxLen=2, Alpha='full', OomGates=both), None),
+                ('core-3', dict(MaxLen=3, Alpha='core'), None),
+                ('2conn-2', dict(two, MaxLen=2), None),
+                ('2conn-1-maxreq2', dict(two, MaxLen=1, MaxReq=2, Alpha='core'), None)]
+        # every finding taken as-is must be REDISCOVERED by the invariants; every spec mutant must be caught
+        self_ = [('asis-' + f, dict(MaxLen=1 if f not in ('F10-resvflag', 'F2-incr-get') else 2,
+                                    Alpha='full' if f not in ('F10-resvflag', 'F2-incr-get') else 'core', FAsIs=tla_set([f])),
+                  EXPECT_ASIS[f]) for f in ALLF]
+        self_ += [('mut-DoubleFree', dict(MaxLen=1, Alpha='core', Mutants='{"DoubleFree"}'), ('C12_NoDoubleFree',)),
+                  ('mut-LeakOnEof', dict(MaxLen=1, Alpha='core', Mutants='{"LeakOnEof"}'), ('C12_Zero',)),
+                  ('mut-NoTokenPutOnPanic', dict(MaxLen=2, Alpha='core', FAsIs='{"F10"}', Mutants='{"NoTokenPutOnPanic"}',
+                                                 INVS='C12_Tokens C12_Zero'), ('C12_Tokens', 'C12_Zero', 'Deadlock'))]
+    return main, self_
+
+
+def mc_one(work, name, over, workers, timeout):
+    r = V.tlc_run('MC_Proto', mc_cfg(over), os.path.join(work, 'mc-' + name), workers=workers, timeout=timeout, java=JAVA)
+    if 'Deadlock reached' in r['out'] and not r['violated']:
+        r['violated'] = 'Deadlock'
+    return name, over, r
+
+
+def mc_first(work, tier, log):
+    """the first configuration also prints the alphabet"""
+    over = dict(MaxLen=1, Alpha='full', OomGates='{FALSE, TRUE}', PrintAlpha='TRUE')
+    name, over, r = mc_one(work, 'full-1', over, 8, 600)
+    m = re.search(r'<<"VERIF-ALPHABET", "(.*)">>', r['out'])
+    if not m or (r['error'] and not r['violated']) or r['timeout']:
+        raise V.Inconclusive('MC_Proto full-1 failed / no alphabet: %s\n%s' % (r['error'], r['out'][-1500:]))
+    alpha = json.loads(unescape_tla(m.group(1)))
+    alpha.sort(key=lambda c: json.dumps(c, sort_keys=True))
+    return alpha, (name, over, r)
+
+
+def mc_rest(work, tier, log, first):
+    import concurrent.futures as cf
+    main, self_ = mc_plan(tier)
+    out = [first]
+    budget = 1500 if tier == 'thorough' else 300
+    if tier == 'quick':
+        with cf.ThreadPoolExecutor(max_workers=3) as ex:
+            out += list(ex.map(lambda x: mc_one(work, x[0], x[1], 4, budget), main + self_))
+    else:
+        for name, over, _ in main:
+            out.append(mc_one(work, name, over, V.NCPU, budget))
+        with cf.ThreadPoolExecutor(max_workers=4) as ex:
+            out += list(ex.map(lambda x: mc_one(work, x[0], x[1], 2, 900), self_))
+    want = {name: exp for name, _, exp in main + self_}
+    want['full-1'] = None
+    return out, want
+
+
+def mc_report(results, want, tier, log):
+    res, selft, leads = [], [], []
+    states = trans = 0
+    for name, over, r in results:
+        exp = want.get(name)
+        line = 'MC %s: %d distinct / %d generated states, depth %d, %.1fs' % (name, r['distinct'], r['states'], r['depth'], r['wall'])
+        if exp is None:
+            if r['timeout'] and tier == 'thorough':
+                log(line + ' DID NOT FINISH in its budget: counted as not exhaustive')
+            elif (r['error'] and not r['violated']) or r['timeout']:
+                raise V.Inconclusive('TLC failed on MC_Proto %s: %s\n%s' % (name, r['error'] or 'timeout', r['out'][-1500:]))
+            else:
+                log(line + ((' VIOLATED ' + str(r['violated'])) if r['violated'] else ''))
+            if r['violated']:
+                leads.append(('MC', name, r['violated']))
+            states += r['distinct']
+            trans += r['states']
+            res.append(dict(name=name, constants=over, distinct=r['distinct'], generated=r['states'], depth=r['depth'],
+                            wall_s=round(r['wall'], 1), violated=r['violated'], timeout=r['timeout']))
+        else:
+            if r['error'] and not r['violated']:
+                raise V.Inconclusive('TLC failed on MC_Proto %s: %s\n%s' % (name, r['error'], r['out'][-1500:]))
+            ok = r['violated'] in exp
+            selft.append(dict(name=name, expected=list(exp), violated=r['violated'], ok=ok))
+            if not ok:
+                leads.append(('MC-selftest', name, 'expected one of %s, got %s' % (exp, r['violated'])))
+    log('MC self-test (findings as-is rediscovered / spec mutants caught): %d/%d' % (sum(1 for x in selft if x['ok']), len(selft)))
+    return states, trans, res, selft, leads
+
+
+# ----------------------------------------------------------------------------- generation per tier
+def sample_script(rng, alpha, n):
+    while True:
+        sc = [copy.deepcopy(rng.choice(alpha)) for _ in range(n)]
+        if valid_script(sc):
+            return sc
+
+
+PROBE = [base_cmd('get', keys=[kr('plain', 'kh')])]
+MAPS = [{'kh': 'k%d' % (3 * i + 1), 'km': 'k%d' % (3 * i + 2), 'kt': 'k%d' % (3 * i + 3)} for i in range(8)]
+
+
+def conc_ok(c):
+    """commands usable on concurrent connections: nothing that depends on global state"""
+    return (c['size'] not in ('big',) and c['fault'] != 'bodyshort' and not any(k['name'] == 'kl' for k in c['keys'])
+            and all(k['cls'] in ('plain', 'meta', 'meta2', 'hash', 'unserved', 'ctrl', 'long') for k in c['keys']))
+
+
+def gen_scenarios(tier, seed, alpha, log):
+    rng = random.Random(seed * 7919 + 17)
+    scen = []
+    n = [0]
+
+    def add(script, **kw):
+        n[0] += 1
+        sid = 'p%05d' % n[0]
+        pr = kw.pop('probe', None)
+        if pr is None and any(is_faulty(c) for c in script) and not kw.get('others') and not kw.get('stall'):
+            pr = copy.deepcopy(PROBE)
+        scen.append(make_scenario(sid, random.Random(seed * 1000003 + n[0]), script, probe=pr, **kw))
+
+    # every single abstract command
+    for c in alpha:
+        add([copy.deepcopy(c)])
+    pairs = [(a, b) for a in alpha for b in alpha if valid_script([a, b])]
+    if tier == 'quick':
+        for a, b in rng.sample(pairs, 260):
+            add([copy.deepcopy(a), copy.deepcopy(b)])
+        nlong, nbyte, ntcp, noom, ndisk, nconc, nstall, ntrunc = 90, 40, 24, 30, 40, 16, 8, 2
+    else:
+        for a, b in pairs:
+            add([copy.deepcopy(a), copy.deepcopy(b)])
+        nlong, nbyte, ntcp, noom, ndisk, nconc, nstall, ntrunc = 2500, 400, 200, 400, 600, 200, 80, 40
+    for _ in range(nlong):
+        add(sample_script(rng, alpha, rng.randint(3, 7)))
+    for _ in range(nbyte):
+        add(sample_script(rng, alpha, rng.randint(1, 4)), mode='byte')
+    for _ in range(ntcp):
+        add(sample_script(rng, alpha, rng.randint(1, 4)), mode='tcp')
+    # memory-shortage gate: flush_max = 0, so a big value is refused while a write buffer is non-empty
+    bigs = [c for c in alpha if c['size'] in ('big', 'gtc', 'z') or c['verb'] in ('incr', 'delete', 'get')]
+    for i in range(noom):
+        add(sample_script(rng, bigs if i % 2 else alpha, rng.randint(1, 4)), conf_over=dict(flush_max=0), preload=(i % 3 != 0))
+    # reads from the data files: the store is closed and reopened after the preload
+    readers = [c for c in alpha if c['verb'] in ('get', 'gets', 'incr', 'delete', 'set', 'append')]
+    for i in range(ndisk):
+        add(sample_script(rng, readers if i % 2 else alpha, rng.randint(1, 4)), restart=True)
+    # concurrent connections on private keys, shared tokens
+    cpool = [c for c in alpha if conc_ok(c) and c['cut'] == 'none']
+    for i in range(nconc):
+        k = rng.choice([1, 2, 3, 7])
+        others = {'c%d' % (j + 2): [rename(c, MAPS[j]) for c in sample_script(rng, cpool, rng.randint(1, 5))] for j in range(k)}
+        add(sample_script(rng, cpool, rng.randint(1, 5)), others=others, conf_over=dict(max_req=rng.choice([1, 1, 2, 16])))
+    # a connection stalled after the header of a body command holds the only token; another one must get it afterwards
+    holders = [c for c in alpha if c['verb'] in STORE and c['fault'] in ('none', 'badterm') and c['nc'] in ('ok', 'rev')
+               and c['size'] in ('small', 'eqc', 'gtc') and c['cut'] == 'none']
+    for i in range(nstall):
+        first = copy.deepcopy(rng.choice(holders))
+        add([first] + sample_script(rng, cpool, rng.randint(0, 2)), stall=True, conf_over=dict(max_req=1),
+            probe=[rename(c, MAPS[0]) for c in sample_script(rng, cpool, rng.randint(1, 3))])
+    # truncation at every byte
+    tpool = [c for c in alpha if c['cut'] == 'none' and c['size'] not in ('big', 'huge')]
+    for i in range(ntrunc):
+        n[0] += 1
+        script = sample_script(rng, tpool, rng.randint(2, 3))
+        tr = truncations('p%05d' % n[0], seed * 1000003 + n[0], script, every=1, probe=copy.deepcopy(PROBE),
+                         conf_over=dict(body_c=16, body_big=40, body_max=80))
+        scen += tr
+    n[0] += 1
+    scen.append(roundtrip_scenario('p%05d' % n[0], random.Random(seed + 99)))
+    n[0] += 1
+    scen.append(roundtrip_scenario('p%05d' % n[0], random.Random(seed + 100)))
+    return scen
+
+
+def nontrivial(pid, sc, events):
+    """DESIGN.md section 6: C11: >= 1 storage command with a body and >= 1 fault or special key, and it was executed;
+    C12: >= 1 buffer crossed parser -> client -> wbuf -> freed (FlushData add and sub in the ledger) and >= 1 error path
+    released a buffer early (a SetData decrement that is not the hand-over to the write buffer)."""
+    cmds = [c for cn in sc.get('conns', []) if cn['name'] != 'c0' for c in cn['cmds']]
+    if pid == 'C11':
+        body = any(c['verb'] in STORE and c['got'] > c['hl'] for c in cmds)
+        odd = any(is_faulty(c) or any(k['cls'] != 'plain' for k in c['keys']) for c in cmds)
+        ran = any(e['a'] == 'Script' and e['c'] != 'c0' and (e['replies'] or e['closed']) for e in events)
+        return body and odd and ran
+    fadd = fsub = early = 0
+    for e in events:
+        if e['a'] != 'Hooks':
+            continue
+        prev = None
+        for h in e.get('ev') or []:
+            if h['p'] == 'rl.count' and h.get('lim') == 'F':
+                if h['d'] > 0:
+                    fadd += 1
+                else:
+                    fsub += 1
+            if h['p'] == 'rl.count' and h.get('lim') == 'S' and h['d'] < 0 and not (prev and prev.get('lim') == 'F'):
+                early += 1
+            if h['p'] in ('rl.count', 'rl.size'):
+                prev = h if h['p'] == 'rl.count' else prev
+    return fadd > 3 and fsub > 3 and early > 0
+
+
+# ----------------------------------------------------------------------------- run
+def execute(tb, scen, work, log, tag='run'):
+    wd = os.path.join(work, tag)
+    os.makedirs(wd, exist_ok=True)
+    traces, crashed = V.run_scenarios(tb, scen, wd, pkg='gobeansdb', runname='TestVerifProto', timeout=1500)
+    if crashed:
+        raise V.Inconclusive('harness process died: %s' % crashed[0][2][-1200:])
+    return traces
+
+
+def has_hang(events):
+    return any(e['a'] == 'Script' and e.get('hang') for e in events)
+
+
+def run(pid, tier, seed, work, log, replay=None):
+    t0 = time.time()
+    res = {'violations': [], 'known': [], 'drift': [], 'lead': [], 'coverage': {}, 'assumptions': ASSUMPTIONS}
+    states = trans = 0
+    mcruns, selft = [], []
+    mcfut = None
+    if replay:
+        scen = [json.load(open(replay))]
+    else:
+        alpha, first = mc_first(work, tier, log)
+        log('alphabet from MC_Proto.tla: %d abstract commands' % len(alpha))
+        import concurrent.futures as cf
+        mcpool = cf.ThreadPoolExecutor(max_workers=1)
+        mcfut = mcpool.submit(mc_rest, work, tier, log, first)     # model checking goes on beside the executions
+        scen = gen_scenarios(tier, seed, alpha, log)
+        for p in ('C11', 'C12'):
+            fixed = os.path.join(V.VERIF, 'scenarios', 'fixed', p)
+            if os.path.isdir(fixed):
+                for f in sorted(os.listdir(fixed)):
+                    if f.endswith('.json'):
+                        scen.append(json.load(open(os.path.join(fixed, f))))
+    log('%d scenarios' % len(scen))
+    tb = V.build_harness(work, 'gobeansdb')
+    traces = execute(tb, scen, work, log)
+    missing = [s['id'] for s in scen if s['id'] not in traces]
+    if missing:
+        raise V.Inconclusive('no trace for %d scenarios, e.g. %s' % (len(missing), missing[:3]))
+    # a Hang observation rests on a deadline: it counts only if it shows again when the scenario runs alone, 3x the time
+    hung = [s for s in scen if has_hang(traces[s['id']])]
+    if hung:
+        log('%d scenarios with a Hang observation: re-running them alone with 3x the deadline' % len(hung))
+        again = []
+        for s in hung[:12]:
+            s2 = copy.deepcopy(s)
+            s2['conf']['deadline_ms'] = 3 * s['conf'].get('deadline_ms', 10000)
+            again.append(s2)
+        t2 = V.run_scenarios(tb, again, os.path.join(work, 'rerun'), pkg='gobeansdb', runname='TestVerifProto', shards=4, timeout=1500)[0]
+        for s in again:
+            if s['id'] in t2:
+                traces[s['id']] = t2[s['id']]
+    per = {}
+    chunks = [[] for _ in range(1 if len(scen) < 400 else min(8, V.NCPU // 2))]
+    for i, s in enumerate(scen):
+        ev = norm_events(s, traces[s['id']])
+        per[s['id']] = ev
+        chunks[i % len(chunks)] += ev
+    import concurrent.futures as cf
+    with cf.ThreadPoolExecutor(max_workers=len(chunks)) as ex:
+        vr = list(ex.map(lambda a: validate(a[1], os.path.join(work, 'tv%d' % a[0])), enumerate(chunks)))
+    bad, nev, tstates = [], 0, 0
+    for r in vr:
+        if not r['accepted']:
+            raise V.Inconclusive('trace validation did not consume the whole trace: %s\n%s' % (r.get('tlc_error'), r['out'][-2000:]))
+        bad += r['bad']
+        res['drift'] += r['drift']
+        res['lead'] += r['lead']
+        nev += r['total']
+        tstates += r['states']
+    log('TLC validated %d events of %d scenarios in %d runs (%.1fs)' % (nev, len(scen), len(vr), max(r['wall'] for r in vr)))
+    if not replay:
+        results, want = mcfut.result()
+        states, trans, mcruns, selft, leads = mc_report(results, want, tier, log)
+        res['lead'] += leads
+    byid = {s['id']: s for s in scen}
+    for sid, n, chk in sorted(set(bad)):
+        if not chk.startswith(pid + '_'):
+            continue
+        name, _, kf = chk.partition('!')
+        res['violations' if not kf else 'known'].append({'sid': sid, 'n': n, 'check': name, 'kf': kf})
+    nt = set()
+    for s in scen:
+        if s.get('kind') == 'proto' and nontrivial(pid, s, traces[s['id']]):
+            nt.add(hashlib.sha1(json.dumps([c['cmds'] for c in s['conns']], sort_keys=True).encode()).hexdigest())
+    sample = scen[min(len(scen) - 1, 160)]
+    small = dict(id=sample['id'], conf=sample['conf'], mode=sample.get('mode'),
+                 conns=[dict(name=c['name'], cmds=[{k: v for k, v in x.items() if k in ('verb', 'keys', 'nf', 'nc', 'size', 'n', 'content', 'noreply', 'fault', 'cut')}
+                                                   for x in c['cmds']]) for c in sample.get('conns', [])])
+    head = [e for e in per[sample['id']] if e['a'] in ('Script', 'Quiesce')][:4]
+    for e in head:
+        e.pop('led', None)
+        e.pop('cmds', None)
+    modes = {}
+    for s in scen:
+        modes[s.get('mode', '?')] = modes.get(s.get('mode', '?'), 0) + 1
+    res['coverage'] = {
+        'states': states if not replay else 1, 'transitions': trans if not replay else 1,
+        'traces_validated_against_impl': len(per),
+        'samples': [{'scenario': small, 'trace_head': head}],
+        'evaluations': len(scen), 'distinct_nontrivial': len(nt),
+        'rule': ('C11: script holds >= 1 storage command whose body was delivered and >= 1 faulty command or special key, and the '
+                 'server answered or closed' if pid == 'C11' else
+                 'C12: the hook ledger shows > 3 buffers handed to the write buffer and freed by the flush, and >= 1 SetData '
+                 'entry released on another path (error / refusal / invalid key)'),
+        'events_validated': nev, 'trace_states': tstates, 'mc_runs': mcruns, 'mc_selftest': selft,
+        'delivery_modes': modes,
+        'exhaustive': bool(mcruns) and all(not m['timeout'] for m in mcruns),
+        'drift': len(res['drift']), 'model_only_leads': len(res['lead']),
+    }
+    res['scen'] = byid
+    res['wall'] = time.time() - t0
     return res
